@@ -310,7 +310,7 @@ _add(PropertySpec(
     'C06', 'other',
     functions=['ampycloud.data.CeiloChunk._get_min_sep_for_height', 'ampycloud.utils.utils.calc_base_height',
                'ampycloud.data.CeiloChunk._calculate_base_height_for_selection', 'ampycloud.data.CeiloChunk._merge_close_groups'],
-    lemmas=['prop.C02.nosig'],
+    lemmas=['prop.C02.nosig', 'cnt_mono'],
     bounded=_bounded('c06'),
     explanation=('PROVED (P): _get_min_sep_for_height returns the MIN_SEP_VALS entry of the height bin (left insertion point in the ascending '
                  'limits; lengths mismatch => AmpycloudError; index always in range); calc_base_height is the percentile of the look-back '
